@@ -27,7 +27,7 @@ from ..engine.normal import Normalizer, Unsupported, first_diff, show
 from ..engine.mrspec import SHAPES
 from ..engine.flow import Flow
 from ..engine.typestate import FactDomain
-from ..engine.inline import Inliner
+from ..engine.inline import Inliner, cmp_parts, norm_text
 from . import ikshape
 from .armstate import ArmChecker, ARM
 from .c02 import r024
@@ -139,15 +139,16 @@ def check(model, rep):
         for st in lp.body:
             t = st.test
             ok, which = False, None
-            if isinstance(t, ast.Compare) and len(t.ops) == 1 and src(t.left) == '%s[%s]' % (th, jv):
-                rhs = src(t.comparators[0])
+            cp = cmp_parts(t, left='%s[%s]' % (th, jv))
+            if cp is not None:
+                rhs = cp[2]
                 asg = [s for s in st.body if isinstance(s, ast.Assign)]
-                if isinstance(t.ops[0], ast.Lt) and rhs == '%s[%s]' % (lo_p, jv):
+                if cp[1] in ('<', '<=') and rhs == '%s[%s]' % (lo_p, jv):
                     which = 'lower'
-                    ok = len(asg) == 1 and src(asg[0].targets[0]) == '%s[%s]' % (th, jv) and src(asg[0].value) == rhs and not st.orelse
-                elif isinstance(t.ops[0], ast.Gt) and rhs == '%s[%s]' % (hi_p, jv):
+                    ok = len(asg) == 1 and norm_text(asg[0].targets[0]) == '%s[%s]' % (th, jv) and norm_text(asg[0].value) == rhs and not st.orelse
+                elif cp[1] in ('>', '>=') and rhs == '%s[%s]' % (hi_p, jv):
                     which = 'upper'
-                    ok = len(asg) == 1 and src(asg[0].targets[0]) == '%s[%s]' % (th, jv) and src(asg[0].value) == rhs and not st.orelse
+                    ok = len(asg) == 1 and norm_text(asg[0].targets[0]) == '%s[%s]' % (th, jv) and norm_text(asg[0].value) == rhs and not st.orelse
             if which:
                 seen.add(which)
             rep.ob('R07.3', kc, 'clamp: ' + src(t), ok, 'clamp statement does not set joint j to the bound it violates: ' + src(st)[:90], line=st.lineno)
